@@ -238,8 +238,24 @@ impl PoolMap {
             );
             self.update_ancestors_index_key(&entry.inner, EntryOp::Remove);
             self.update_descendants_index_key(&entry.inner, EntryOp::Remove);
+            // When the removed entry still has parents in the pool (e.g. it consumed a cell which a
+            // pooled transaction only references as cell dep), its descendants lose those
+            // ancestors together with it.
+            let orphaned_descendants = if self
+                .links
+                .get_parents(id)
+                .map(|parents| !parents.is_empty())
+                .unwrap_or(false)
+            {
+                self.calc_descendants(id)
+            } else {
+                HashSet::new()
+            };
             self.remove_entry_edges(&entry.inner);
             self.remove_entry_links(id);
+            for desc_id in &orphaned_descendants {
+                self.recalc_entry_weights(desc_id);
+            }
             self.track_entry_statics(Some(entry.status), None);
             self.update_stat_for_remove_tx(entry.inner.size, entry.inner.cycles);
             entry.inner
